@@ -54,6 +54,10 @@ PIT_PROGS = [
     {'dim': 2, 'cin': 2, 'size': 6, 'stages': [{'op': 'residual', 'cout': 3}, {'op': 'conv', 'cout': 2, 'k': 1}], 'head': {'kind': 'flatlin', 'out': 2}},
     {'dim': 1, 'cin': 2, 'size': 8, 'stages': [{'op': 'conv', 'cout': 2, 'k': 7}], 'head': {'kind': 'flatlin', 'out': 2}},
     {'dim': 1, 'cin': 2, 'size': 8, 'stages': [{'op': 'conv', 'cout': 2, 'k': 9, 'd': 2}], 'head': {'kind': 'gaplin'}},
+    # concat pooling: the operands of the concat are different nodes deriving from the same layer
+    {'dim': 1, 'cin': 2, 'size': 8, 'stages': [{'op': 'conv', 'cout': 3, 'k': 1}, {'op': 'concat', 'members': ['mp', 'ap']}, {'op': 'conv', 'cout': 2, 'k': 1}],
+     'head': {'kind': 'gaplin'}},
+    {'dim': 2, 'cin': 2, 'size': 6, 'stages': [{'op': 'conv', 'cout': 3, 'k': 1}, {'op': 'concat', 'members': ['id', 'mp']}], 'head': {'kind': 'flatlin', 'out': 2}},
 ]
 
 SN_PROGS = [
@@ -225,6 +229,19 @@ def _run_P(case, seed, res, add, cur):
                     if abs(again[d][k] - vals[d][k]) > 1e-4 * max(1.0, abs(vals[d][k])):
                         add('cost-depends-on-weights-or-data', f'cost-depends-on-weights-or-data/pit/{k}',
                             f'masks {desc}: get_cost({k}) discrete={d} changed from {vals[d][k]} to {again[d][k]} after re-drawing the weights and a forward on other data')
+        # a function of the architecture only: assigning the (same) cost specification again through the public setter while the
+        # masks are in this state must not change any value
+        if si % 3 == 2:
+            nas.cost_specification = dict(specs)
+            with torch.no_grad():
+                again = {d: {k: float(v) for k, v in costs(d).items()} for d in (False, True)}
+            for d in (False, True):
+                for k in specs:
+                    res['evals'] += 1
+                    if abs(again[d][k] - vals[d][k]) > 1e-4 * max(1.0, abs(vals[d][k])):
+                        add('cost-depends-on-query-history', f'cost-depends-on-query-history/pit/{k}/spec-reassigned',
+                            f'masks {desc}: get_cost({k}) discrete={d} changed from {vals[d][k]} to {again[d][k]} after assigning the same cost '
+                            f'specification again in this state')
         # a function of the architecture only: a fresh twin with the same masks, metrics queried in the reverse order
         if si % 16 == 1:
             ctx2 = D.make_pit(prog, seed, fold_bn=fold, cost=dict(specs))
